@@ -30,6 +30,7 @@ mod readonly_ops;
 mod checkpoint;
 mod manifest_io;
 mod gossip_queue;
+mod zset_container;
 use std::panic;
 
 pub struct Found {
@@ -96,6 +97,7 @@ fn main() {
         "checkpoint" => checkpoint::search(&pid, &oid, seed),
         "manifest_io" => manifest_io::search(&pid, &oid, seed),
         "gossip_queue" => gossip_queue::search(&pid, &oid, seed),
+        "zset_container" => zset_container::search(&pid, &oid, seed),
         "recovery_wal" | "recovered_apply" | "recover_segments" => recovery::search(&pid, &oid, seed),
         _ => None,
     };
